@@ -311,6 +311,35 @@ def rate_test_call_trees(ctx, rate, ncalls, seed):
                             f"rate {rate}: {got} of {n} calls of {fn} traced (it is called from / calls other traced functions), acceptance interval [{lo}, {hi}]", raise_=False)
 
 
+def _walk_pre(start, stop):
+    yield start
+    start = str(start)
+    stop = [stop]
+    yield (start, start)
+    yield 1.5
+
+
+def pre_started_generators(ctx, rate, n):
+    """generators whose first step was taken BEFORE the tracing block (a request handler's stream, a pipeline stage) and that
+    are finished inside it: their call was not seen, so nothing is logged for them - whatever the rate, unset and 1 included"""
+    lg = Keep()
+    code = _walk_pre.__code__
+    gens = []
+    for i in range(n):
+        g = _walk_pre(i, i + 1)
+        next(g)
+        gens.append(g)
+    with trace_calls(lg, 0, lambda c: c is code, rate):
+        for g in gens:
+            for _ in g:
+                pass
+    spec = ["PRESTARTED", rate, n]
+    ctx.case(spec, True, ["generators-started-before-the-block:%s" % rate])
+    if lg.traces:
+        t = lg.traces[0]
+        ctx.fail("C18/generator-trace-starts-mid-life", spec, f"rate {rate}: {len(lg.traces)} traces logged for {n} generators that were started before the block; first: args {t.arg_types} yield {t.yield_type}", raise_=False)
+
+
 def _total_ge(xs):
     return sum(x for x in xs)  # the generator expression's frames cannot be resolved to a function
 
@@ -586,6 +615,7 @@ def shard(ctx):
                 rate_test_sessions(ctx, r, 3000 if q else 20000, ctx.seed * 1000 + s + 29)
             rate_test_same_config(ctx, [RATES[(i + j) % len(RATES)] for j in range(3)], n // 8, ctx.seed * 1000 + s + 31)
             async_generators(ctx, r, 300 if q else 3000, ctx.seed * 1000 + s + 17)
+            pre_started_generators(ctx, r, 50 if q else 500)
             rate_test_nested(ctx, r, RATES[(i + 1) % len(RATES)], n // 8, ctx.seed * 1000 + s + 19)
             rate_test_nested(ctx, RATES[(i + 2) % len(RATES)], r, n // 8, ctx.seed * 1000 + s + 23)
             if r not in (None, 1):
@@ -602,6 +632,8 @@ def replay(ctx, case):
         return rate_test(ctx, case[1], case[2], case[3])
     if case[0] == "RATEPRIMED":
         return rate_test_primed_generators(ctx, case[1], case[2], case[3])
+    if case[0] == "PRESTARTED":
+        return pre_started_generators(ctx, case[1], case[2])
     if case[0] == "RATEUNRESOLVABLE":
         return rate_test_unresolvable(ctx, case[1], case[2], case[3])
     if case[0] == "RATETREES":
